@@ -10,6 +10,18 @@ def run(ck):
                          "INVARIANT DistinctLabelsSorted\nCHECK_DEADLOCK FALSE\n" % (("1, 2, 3, 4", 4) if ck.tier == "quick" else ("1, 2, 3, 4, 5", 5)))
     ck.model("MC_Oddpos.tla", cfg, timeout=3000)
     q = ck.tier == "quick"
+    # Machine.tla, chain instance: three tensors r1 - r2 - r3 (all charges, sparsity patterns and pending signs of the pool);
+    # every route (which pair first, either operand order, fused / blockwise) is explored with the implementation-shaped
+    # operators; invariant RouteIndependent: the result denotes the tensor of the reference route.  A sample of the routes is
+    # replayed into the library and compared with the model state by state.
+    from vlib import machine
+    from harness import gen as _gen
+    _tids = _gen.Tids(100000)
+    mprogs = machine.run_machine(ck, "Z2", "fermionic", "PoolZ2t", "OpsChain", rank=2, depth=5, mod=400, tids=_tids)
+    if not q:
+        mprogs += machine.run_machine(ck, "Z2", "fermionic", "PoolZ2t", "OpsChainD", rank=2, depth=5, mod=2000, tids=_tids, timeout=3000)
+        mprogs += machine.run_machine(ck, "U1", "fermionic", "PoolU1t", "OpsChain", rank=2, depth=5, mod=2000, tids=_tids, timeout=3000)
+    ck.conform(mprogs)
     progs = network.route_programs(ck.seed, 100 if q else 2000, nroutes=5 if q else 8)
     ck.cov["rule"] = ("random fermionic networks (pairs with 1-2 bonds, chains of 3-4, triangles, stars; random bond orientation, "
                       "even/odd charges, distinct labels, pending signs, sparse tensors); several random routes per network differing "
